@@ -72,7 +72,7 @@ func genC19(rng *rand.Rand, n int, emit func(Case), dist map[string]int) {
 		return httptest.NewServer(http.HandlerFunc(func(w http.ResponseWriter, r *http.Request) {
 			b, _ := io.ReadAll(r.Body)
 			mu.Lock()
-			hits = append(hits, c19Hit{name, r.Method, r.RequestURI, string(b), r.Header.Get("X-Custom")})
+			hits = append(hits, c19Hit{name, r.Method, r.RequestURI, string(b), r.Header.Get("X-Custom") + "|" + r.Header.Get("X-Forwarded-Proto") + "|" + strings.SplitN(r.Header.Get("X-Forwarded-For"), ",", 2)[0]})
 			mu.Unlock()
 			w.Header().Set("X-Upstream", name)
 			w.Header().Set("X-Up-Header", "v-"+name)
@@ -114,7 +114,7 @@ func genC19(rng *rand.Rand, n int, emit func(Case), dist map[string]int) {
 		}
 	}()
 	paths := []string{"/", "/a/b", "/a%2Fb", "/x%20y", "/files/report.pdf", "/api/v1/users/42", "/%E2%9C%93"}
-	queries := []string{"", "q=1", "a=b&c=d%20e", "code=404", "x=%2F"}
+	queries := []string{"", "q=1", "a=b&c=d%20e", "code=404", "x=%2F", "tags=a;b&sort=asc", "k=%zz&ok=1"}
 	methods := []string{"GET", "POST", "PUT", "DELETE", "PATCH"}
 	for it := 0; it < n; it++ {
 		if it%10 == 9 {
@@ -299,6 +299,9 @@ func genC19(rng *rand.Rand, n int, emit func(Case), dist map[string]int) {
 				}
 				custom := fmt.Sprintf("c-%d", rng.Intn(1000))
 				req.Header.Set("X-Custom", custom)
+				// what an earlier proxy in front already recorded about the client travels on
+				req.Header.Set("X-Forwarded-Proto", "https")
+				req.Header.Set("X-Forwarded-For", "203.0.113.7")
 				rec := httptest.NewRecorder()
 				nextLog = nextLog[:0]
 				mu.Lock()
@@ -353,8 +356,8 @@ func genC19(rng *rand.Rand, n int, emit func(Case), dist map[string]int) {
 						if uu, perr := url.Parse(upstreamURI); perr == nil && uu.Query().Get("code") == "404" {
 							wantCode = 404
 						}
-						if h.name != attempts[len(attempts)-1] || h.method != method || h.uri != upstreamURI || h.body != body || h.hdr != custom {
-							ok, why = false, fmt.Sprintf("upstream saw %+v, sent %s %s body=%q X-Custom=%q via attempts %v (expected upstream URI %s)", h, method, target, body, custom, attempts, upstreamURI)
+						if h.name != attempts[len(attempts)-1] || h.method != method || h.uri != upstreamURI || h.body != body || h.hdr != custom+"|https|203.0.113.7" {
+							ok, why = false, fmt.Sprintf("upstream saw %+v, sent %s %s body=%q X-Custom=%q (+ X-Forwarded-Proto https, X-Forwarded-For starting with 203.0.113.7) via attempts %v (expected upstream URI %s)", h, method, target, body, custom, attempts, upstreamURI)
 						}
 						if rec.Code != wantCode || rec.Body.String() != "body-from-"+h.name || rec.Header().Get("X-Up-Header") != "v-"+h.name {
 							ok, why = false, fmt.Sprintf("upstream %s answered %d, client got %d body=%q", h.name, wantCode, rec.Code, rec.Body.String())
